@@ -476,6 +476,30 @@ class FnEmitter:
                         k = cl
             k += 1
 
+        # R12: `IDENT as f64` / `*IDENT as f64` -> i64_to_f64(IDENT) / i64_to_f64(*IDENT).  The exec cast is
+        # nondeterministic in Verus (two casts of the same integer are not provably equal); the
+        # wrapper (spec/compare.rs) says the cast is a function of the integer (spec i2f).  An operand
+        # that is not an i64 makes the generated file ill-typed (tool limit), never a pass.
+        k = bopen
+        while k < bclose:
+            t = toks[k]
+            if t.kind == 'id' and t.text == 'as':
+                nx = next_sig(toks, k)
+                pv = prev_sig(toks, k)
+                if toks[nx].kind == 'id' and toks[nx].text == 'f64' and toks[pv].kind == 'id':
+                    start = toks[pv].start
+                    pp = prev_sig(toks, pv)
+                    if toks[pp].kind == 'p' and toks[pp].text == '*':
+                        ppp = prev_sig(toks, pp)
+                        unary = not (toks[ppp].kind in ('id', 'num') or (toks[ppp].kind == 'p' and toks[ppp].text in (')', ']')))
+                        if unary:
+                            start = toks[pp].start
+                    if not (toks[pp].kind == 'p' and toks[pp].text == '.'):
+                        edits.append((start, start, 'i64_to_f64(', None))
+                        edits.append((toks[pv].end, toks[nx].end, ')', None))
+                        self.counts['R12'] = self.counts.get('R12', 0) + 1
+            k += 1
+
         loops = loop_heads(toks, bopen + 1, bclose)
         isolated = not any('loop_isolation(false)' in l for _, l in (con.get('attr') or []))
         if not isolated and loops:
